@@ -51,3 +51,18 @@ def c09_bracketed_non_ip(ctx):
     if a is None or st is None:
         return False
     return all_of(["[" in a, ("[" in st) == False])  # noqa: E712
+
+
+def c03_colon_first_segment(ctx):
+    """F16: schemeless URL without authority whose (canonical) first path segment contains ':'"""
+    sc = ctx.notes.get("u_scheme")
+    nl = ctx.notes.get("u_netloc")
+    p = ctx.notes.get("u_path")
+    if sc is None or nl is None or p is None:
+        return False
+    if len(sc) != 0 or len(nl) != 0:
+        return False
+    alts = []
+    for i in range(len(p)):
+        alts.append(all_of([p[i] == ":"] + [p[j] != "/" for j in range(i)]))
+    return any_of(alts)
